@@ -107,3 +107,6 @@ Definition wf_obs (t : vlevel) : bool := wf val val_eqb (pred (lv_depth t)) t.
 Definition check_history_M (t0 : vlevel) (ops : list (op val)) (tf : vlevel) (cols : list (list val)) : bool :=
   let st := go_step val val_eqb (fold_left (go_step val val_eqb) ops (mk_ihgo t0 None)) ORead in
   level_eqb (g_tree st) tf && res_eqb (list_eqb (list_eqb val_eqb)) (go_blocks st) (Ok cols).
+
+(* level_drop(-1): the tree the implementation leaves behind (offsets included) *)
+Definition check_drop_inner_M (t obs : vlevel) : bool := level_eqb (M_drop_inner val t) obs.
